@@ -1186,7 +1186,9 @@ func (g *gen) splitFiles(main *File) {
 	second := &File{Name: g.s.ID + "/types.proto", Generate: true}
 	var keep []*Message
 	for _, m := range main.Messages {
-		if strings.HasSuffix(m.Name, "Request") || strings.HasSuffix(m.Name, "Response") || !leaf(m) || !g.bool("movemsg") {
+		// wrappers of unwrap fields are moved more often: cross-file unwrap resolution is a code path of its own
+		wrapper := len(m.Fields) == 1 && m.Fields[0].Ann != nil && m.Fields[0].Ann.Unwrap
+		if strings.HasSuffix(m.Name, "Request") || strings.HasSuffix(m.Name, "Response") || !leaf(m) || !(g.bool("movemsg") || (wrapper && g.bool("movewrapper"))) {
 			keep = append(keep, m)
 			continue
 		}
